@@ -142,12 +142,18 @@ Proof.
   rewrite chunks_asn by exact Hx. reflexivity.
 Qed.
 
-Lemma segment_ok_wf asn4 s : wf_segment asn4 s -> segment_ok asn4 s = true.
+Lemma segment_ok_wf asn4 s : wf_segment asn4 s -> seg_type_ok s = true /\ segment_ok asn4 s = true.
 Proof.
-  intros (Ht & Hn & Hx). unfold segment_ok.
+  intros (Ht & Hn & Hx). unfold seg_type_ok, segment_ok. split; [lia|].
   assert (forallb (fun a => a <? asn_lim asn4) (snd s) = true).
   { apply forallb_forall. rewrite Forall_forall in Hx. intros a Ha. specialize (Hx a Ha). lia. }
-  rewrite H. destruct (fst s <? 256) eqn:E1; destruct (len (snd s) <? 256) eqn:E2; try reflexivity; lia.
+  rewrite H. destruct (len (snd s) <? 256) eqn:E2; try reflexivity; lia.
+Qed.
+
+Lemma check_segments_wf asn4 segs : Forall (wf_segment asn4) segs -> check_segments asn4 segs = Ok tt.
+Proof.
+  intros H. induction H as [|s segs Hs H IH]; [reflexivity|].
+  cbn [check_segments]. destruct (segment_ok_wf asn4 s Hs) as (-> & ->). exact IH.
 Qed.
 
 Lemma aspath_roundtrip asn4 segs :
@@ -156,10 +162,7 @@ Lemma aspath_roundtrip asn4 segs :
   parse_aspath asn4 (enc_aspath asn4 segs) = Ok (VPath segs).
 Proof.
   intros H Hlen. split.
-  - unfold construct_aspath.
-    replace (forallb (segment_ok asn4) segs) with true.
-    2:{ symmetry. apply forallb_forall. rewrite Forall_forall in H. intros s Hs.
-        apply segment_ok_wf. auto. }
+  - unfold construct_aspath. rewrite (check_segments_wf asn4 segs H).
     unfold frame, tlv1. destruct (255 <? len (enc_aspath asn4 segs)) eqn:E; [|reflexivity].
     destruct (65535 <? len (enc_aspath asn4 segs)) eqn:E2; [lia | reflexivity].
   - unfold parse_aspath, enc_aspath.
@@ -247,11 +250,13 @@ Proof.
   cbn [concat length]. rewrite app_length, IH. destruct Hc as (-> & _). lia.
 Qed.
 
-Lemma largecommunity_roundtrip l : Forall wf_large l -> len (enc_large l) <= 255 ->
+Lemma largecommunity_roundtrip l : Forall wf_large l -> l <> [] -> len (enc_large l) <= 255 ->
   construct_largecommunity l = Ok (frame c_ATTR_LargeCommunity_FLAG c_ATTR_LargeCommunity_ID (enc_large l)) /\
   parse_largecommunity (enc_large l) = Ok (VLarge l).
 Proof.
-  intros H Hlen.
+  intros H Hne Hlen.
+  assert (Hlen12 : length (enc_large l) = (length l * 12)%nat).
+  { rewrite enc_large_flat, length_concat_be, length_concat3 by exact H. lia. }
   assert (Hall : Forall (fun x => x < 4294967296) (concat l)).
   { rewrite Forall_forall in *. intros x Hx. apply in_concat in Hx. destruct Hx as (c & Hc & Hx).
     destruct (H c Hc) as (_ & Hf). rewrite Forall_forall in Hf. auto. }
@@ -261,6 +266,9 @@ Proof.
     2:{ symmetry. apply forallb_forall. intros c Hc. apply forallb_forall. intros x Hx.
         rewrite Forall_forall in H. destruct (H c Hc) as (_ & Hf). rewrite Forall_forall in Hf.
         specialize (Hf x Hx). lia. }
+    destruct ((len (enc_large l) =? 0) || negb (len (enc_large l) mod 12 =? 0)) eqn:E0.
+    { exfalso. unfold len in E0. rewrite Hlen12 in E0.
+      destruct l as [|c l']; [congruence|]. cbn [length] in E0. lia. }
     destruct (255 <? len (enc_large l)) eqn:E; [lia|].
     rewrite tlv1_frame by exact Hlen. reflexivity.
   - unfold parse_largecommunity. rewrite enc_large_flat, length_concat_be, length_concat3 by exact H.
